@@ -230,3 +230,10 @@ def close_goes_through_the_wrapping_send(s):
     else:
         assert sends == []
     assert not s.initialized and tr[-1] == "transport_stop"
+
+
+# the sizes of the fields of a received SecureWrapper (the WRAPPER spec above) are owed by its parser - proved in C30
+from contracts import c30_secure_routing as _c30  # noqa: E402
+from pyvc.api import rely_on  # noqa: E402
+
+rely_on("C29", _c30.a_parsed_secure_body_has_its_fixed_field_sizes)
